@@ -67,3 +67,7 @@ extern void (*g_preempt_hook)();
 extern void (*g_access_hook)(const void *addr, unsigned size, int is_store);
 // look up the block containing addr: returns owner id or -1 when unknown
 int seams_block_owner(const void *addr);
+// writable statics of libhtp (name, address, size): the watch list of the shared-memory oracle, from VERIF_STATICS
+struct WatchedStatic { std::string name; uintptr_t addr; size_t size; };
+extern std::vector<WatchedStatic> g_watched_statics;
+void seams_load_watch_list();
